@@ -163,6 +163,10 @@ def run(ck):
     _cm20.import_results(ck, _C02, "2", "Poll::poll", "6")
     # a slot that was handed out keeps its generation counter for good (the slot vector never shrinks): shared with C01.4
     _cm20.import_results(ck, C01, "4", None, "6")
+    # .. and no event is merged into another one after the poll (its sub-token would be lost): shared with C14.4
+    from props import C14 as _C14
+
+    _cm20.import_results(ck, _C14, "4", "dispatch_events", "6")
     for r in ck.results[n0:]:
         obligations.append((r["key"], r["verdict"] == "ok"))
 
